@@ -323,7 +323,8 @@ func checkC17(c *c17Case) (ds []hx.Discrepancy, info map[string]bool) {
 					info["non-scalar-default"] = true
 					ds, _ := dv.(string)
 					back, err := ggql.ParseValueString(ds)
-					if dv == nil || err != nil || (canonValue(back) != canonValue(a.Default.Go()) && canonValue(back) != canonValue(fillDefaults(s, a.Type, *a.Default).Go())) {
+					r := func(x interface{}) string { return canonValue(roundModel(s, a.Type, x)) }
+					if dv == nil || err != nil || (r(back) != r(a.Default.Go()) && r(back) != r(fillDefaults(s, a.Type, *a.Default).Go())) {
 						add("default", "", "%s.%s: defaultValue %#v does not denote the defined default %s%s", where, a.Name, dv, hx.ValueSDL(*a.Default), ctx())
 					}
 				}
@@ -481,6 +482,46 @@ func checkC17(c *c17Case) (ds []hx.Discrepancy, info map[string]bool) {
 		}
 	}
 	return
+}
+
+// roundModel rounds numbers of positions declared Float to float32 precision (model-side twin of
+// describe.go's roundFloat32).
+func roundModel(s *hx.Schema, t *hx.TRef, v interface{}) interface{} {
+	if t == nil {
+		return v
+	}
+	if t.List != nil {
+		if l, ok := v.([]interface{}); ok {
+			out := make([]interface{}, len(l))
+			for i, e := range l {
+				out[i] = roundModel(s, t.List, e)
+			}
+			return out
+		}
+		return v
+	}
+	if td := s.Type(t.Name); td != nil && td.Kind == hx.KInput {
+		if m, ok := v.(map[string]interface{}); ok {
+			out := map[string]interface{}{}
+			for k, e := range m {
+				out[k] = e
+				if f := td.Input(k); f != nil {
+					out[k] = roundModel(s, f.Type, e)
+				}
+			}
+			return out
+		}
+		return v
+	}
+	if t.Name == "Float" {
+		switch f := v.(type) {
+		case float64:
+			return float64(float32(f))
+		case int64:
+			return float64(float32(f))
+		}
+	}
+	return v
 }
 
 // fillDefaults completes an input object literal with the defaults of the fields it leaves out
